@@ -10,7 +10,7 @@
    the correspondence run, not derived from a coroutine-level model; Slurm state names, scontrol parsing and
    the output/exit-code retrieval (own_result) are exercised only. *)
 From Coq Require Import List Bool Arith.
-From SF Require Import Queue.Model Queue.Proofs.
+From SF Require Import Queue.Model Queue.Proofs Queue.Coroutine Queue.Refine.
 Import ListNotations.
 
 (* run() leaves its polling loop for job j (Unrecord j) only when j is no longer queued *)
@@ -47,6 +47,36 @@ Example C27_stale_listing_rejected :
   accept q0 [Submit 1; Record 1; ClearBy 1; ListStart [1]; Listing [1] [1]; Leave 1;
              Submit 2; Record 2; Unrecord 2] = None.
 Proof. exact stale_listing_rejected. Qed.
+
+(* --- coroutine-level refinement (sixth round) ---
+   Queue/Coroutine.v models run()'s await points (submit call / reply, the lock acquisition before the cache
+   clear, the lock acquisition of each poll, the squeue call in flight with the lock held, the polling sleep) as
+   a transition system over jobs, _scheduled_jobs, the cache slot and the lock holder; an execution is any list
+   of actions (one atomic stretch of one job, or a job leaving the queue, or a TTL expiry; actions that are not
+   enabled are skipped).  Every execution emits a trace that the event-level model ACCEPTS: the guards of
+   ClearBy (no squeue in flight), ListStart (nothing in flight, argument = _scheduled_jobs), Listing and
+   Unrecord now follow from the coroutine structure (the lock) instead of being observed on traces.
+   Still `_partial`: the coroutine system itself is hand-written from the code (tied to it by reading and by the
+   event-level correspondence run, not by a coroutine-level correspondence kind); asyncio.Lock is abstracted to
+   "free or held" (its FIFO hand-over only removes behaviours); cachebox's inner per-key lock is not modelled
+   (it never contends under _jobs_cache_lock); undeploy is not part of the coroutine system. *)
+Theorem C27_coroutine_refines_partial : forall acts,
+  exists q, accept q0 (snd (cexec c0 acts)) = Some q.
+Proof. exact coroutine_trace_accepted. Qed.
+
+(* hence, for every execution of the coroutine system: a job whose run() left the polling loop is not queued *)
+Theorem C27_after_queue_coroutine_partial : forall acts j,
+  cpc (fst (cexec c0 acts)) j = PDone -> ~ In j (cq (fst (cexec c0 acts))).
+Proof. exact coroutine_after_queue. Qed.
+
+Example C27_coroutine_ex :
+  let acts := [ASubmit 1; ASubmitRet 1; ASubmit 2; AClear 1; APoll 1; ASubmitRet 2; AClear 2; AListRet 1; AWake 1;
+               AClear 2; ALeave 1; APoll 2; AListRet 2; APoll 1; AWake 2; AExpire; APoll 2; ALeave 2; AListRet 2] in
+  cpc (fst (cexec c0 acts)) 1 = PDone /\ cpc (fst (cexec c0 acts)) 2 = PDone /\ cq (fst (cexec c0 acts)) = [].
+Proof. vm_compute. repeat split; reflexivity. Qed.
+
+Print Assumptions C27_coroutine_refines_partial.
+Print Assumptions C27_after_queue_coroutine_partial.
 
 Print Assumptions C27_after_queue_partial.
 Print Assumptions C27_finished_not_queued_partial.
